@@ -97,4 +97,7 @@ pub open spec fn spec_dedup<T>(s: Seq<T>) -> Seq<T>
 }
 pub assume_specification<T: core::cmp::PartialEq, A: core::alloc::Allocator>[ Vec::<T, A>::dedup ](v: &mut Vec<T, A>)
     ensures final(v)@ == spec_dedup(old(v)@);
+
+pub assume_specification<T: Copy>[ Option::<&T>::copied ](o: Option<&T>) -> (r: Option<T>)
+    ensures r == (match o { Some(v) => Some(*v), None => None::<T> });
 } // verus!
